@@ -304,6 +304,12 @@ def decide_X(prop, tier, seed, t0, replay):
     info = chan_x.run(seed, tier, prims)
     an, req = chan_x.analyse(info, prims)
     oracle = [o for o in an["oracle"] if o["property"] == prop]
+    miri = None
+    if prop == "C07" and not replay:
+        miri = chan_x.miri_pass(seed, tier)
+        for u in miri.get("ub", []):
+            oracle.append({"property": "C07", "message": "Miri: undefined behaviour in compiled generated code (values may still be right on this machine): " + u["message"],
+                           "line": -1, "build": "miri", "requests": u.get("requests", [])})
     # the generator model whose programs the machine runs is tied by the IR correspondence (G part of channel L)
     cargo_build(["chan_l"])
     linfo = chan_l.run(seed, tier)
@@ -317,7 +323,7 @@ def decide_X(prop, tier, seed, t0, replay):
     if oracle:
         o = oracle[0]
         body = (f"# kind: implementation-vs-oracle (the compiled generated code breaks {prop}; build {o['build']}; VERIF_SEED={seed} tier={tier})\n# {o['message']}\n"
-                f"# {len(oracle)} oracle hits in this run; the requests below build the definition and run the operations up to the failing one\n" + history(o["line"]) + "\n")
+                f"# {len(oracle)} oracle hits in this run; the requests below build the definition and run the operations up to the failing one\n" + ("\n".join(o["requests"]) if o.get("requests") else history(o["line"])) + "\n")
         path = write_replay(prop, "oracle", body)
         lines.append(f"VIOLATION property={prop} replay={path}")
         violations = len(oracle); rc = 1
@@ -357,6 +363,7 @@ def decide_X(prop, tier, seed, t0, replay):
         "samples": an["samples"][:3], "traces_validated_against_impl": an["ops"], "modules": an["modules"], "ops_by_kind": an["by_op"],
         "modules_meeting_theorem_hypotheses (ModuleWF evaluated by the driver)": an.get("modules_meeting_theorem_hypotheses"),
         "modules_passing_the_modelled_move_and_mut_rules (GenCheck evaluated by the driver)": an.get("modules_passing_body_rules"),
+        "miri_pass": ({k: v for k, v in miri.items() if k != "ub"} if miri is not None else None),
         "primitive_accesses_checked": an["accesses"], "variant_layouts_checked_for_overlap": an.get("layouts_checked"), "definitions_the_builder_panicked_on": len(an.get("builder_panics", [])), "disagreements": an["n_disagree"] + lan.get("n_disagree", 0), "oracle_hits": len(oracle),
         "generator_histories_compared": lan["histories"],
         "builds": {k: {kk: vv for kk, vv in v.items() if kk != "dir"} for k, v in info["builds"].items()},
@@ -381,7 +388,7 @@ def decide_V(prop, tier, seed, t0, replay):
         print(f"VIOLATION property={prop} replay={path} no-failing-input-found")
         return 1
     if replay:
-        lines = [l for l in open(replay).read().splitlines() if l.startswith("vec ")]
+        lines = [l for l in open(replay).read().splitlines() if l.startswith("vec ") or l.startswith("zst ")]
         d = os.path.join(WORK, "replayV")
         dirs = []
         for prof, b in chan_v.bins().items():
@@ -468,7 +475,13 @@ def shrink_L(prop, requests, budget_s=45, max_tries=150):
         r = chan_l._run_shard((f"file:{f}", 0, 0, d))
         if "error" in r:
             return False
-        a = chan_l.analyse([d], prop)
+        dirs = [d]
+        opt_bin = os.path.join(TARGET, "opt", "chan_l")
+        if os.path.exists(opt_bin):
+            d2 = os.path.join(tmp, "out-opt")
+            if "error" not in chan_l._run_shard((f"file:{f}", 0, 0, d2, opt_bin)):
+                dirs.append(d2)
+        a = chan_l.analyse(dirs, prop)
         return any(o["property"] == prop for o in a["oracle"])
 
     try:
@@ -510,10 +523,25 @@ def decide_L(prop, tier, seed, t0, replay):
         r = chan_l._run_shard((f"file:{replay}", 0, 0, d))
         info["dirs"] = [d] if "error" not in r else []
         info["errors"] = [r] if "error" in r else []
+        # also with the library built without debug assertions / overflow checks (a failing input may need that build)
+        sh(["cargo", "build", "--offline", "--profile", "opt", "--bin", "chan_l"], cwd=HARNESS, timeout=3600)
+        opt_bin = os.path.join(TARGET, "opt", "chan_l")
+        if os.path.exists(opt_bin):
+            d2 = os.path.join(WORK, "replay-opt")
+            r2 = chan_l._run_shard((f"file:{replay}", 0, 0, d2, opt_bin))
+            if "error" not in r2:
+                info["dirs"].append(d2)
+            else:
+                info["errors"].append(r2)
     else:
         info = chan_l.run(seed, tier)
     an = chan_l.analyse(info["dirs"], prop)
     oracle = [o for o in an["oracle"] if o["property"] == prop]
+    for e in info["errors"]:
+        # a request the real builder never answers: a failing input for "every strategy produces a layout" (C01) and
+        # "nothing panics / the definition can be generated" (C13); for the other properties it is a broken tie with the history shown
+        if e.get("hang") and prop in ("C01", "C13"):
+            oracle.append({"property": prop, "message": "the real builder does not terminate on the last request of this history (no answer within the watchdog limit)", "requests": e["hang"], "nonterminating": True})
     if prop in ("C02", "C03") and not replay:
         # the compiled record types: size_of / align_of of every generated record type (channel X `sizes`), record alignment vs fields
         run_translators()
@@ -568,7 +596,7 @@ def decide_L(prop, tier, seed, t0, replay):
     if oracle:
         o = min(oracle, key=lambda x: len(x.get("requests", [])) or 10 ** 9)
         shrunk, tries = (o["requests"], 0)
-        if not replay and o.get("requests") and o["requests"][0].startswith("reset"):
+        if not replay and o.get("requests") and o["requests"][0].startswith("reset") and not o.get("nonterminating"):
             try:
                 shrunk, tries = shrink_L(prop, o["requests"])
             except Exception as e:  # the shrinker is a convenience; the unshrunk history is still a valid replay
@@ -597,7 +625,11 @@ def decide_L(prop, tier, seed, t0, replay):
             what.append("proof obligations that no longer check: " + " | ".join(pr["problems"])[:2000])
         if not tie_ok:
             d = an["disagreements"][0] if an["disagreements"] else None
-            what.append(f"correspondence channel L: {an.get('n_disagree', 0)} histories disagree; harness errors: {info['errors'][:2]}")
+            what.append(f"correspondence channel L: {an.get('n_disagree', 0)} histories disagree; harness errors: {[{k: v for k, v in e.items() if k != 'hang'} for e in info['errors'][:2]]}")
+            for e in info["errors"]:
+                if e.get("hang"):
+                    what.append("the real builder does not answer the last request of this history:\n#   " + "\n#   ".join(e["hang"][-40:]))
+                    break
             if d:
                 what.append(f"first disagreement at request #{d['line']} `{d['request']}`\n#   impl : {d['impl']}\n#   model: {d['model']}")
         if found:
